@@ -180,7 +180,7 @@ def rebuild(t, f):
             n["cond"] = next(it)
     elif o == "iterelem":
         n["src"] = next(it)
-    elif o in ("star", "dstar"):
+    elif o in ("star", "dstar", "yield"):
         n["x"] = next(it)
     elif o == "raise":
         n["exc"] = next(it)
@@ -256,13 +256,28 @@ def specialise(t, decide):
 
     def f(x):
         if x.op == "if":
-            a, p = atom(x.cond)
-            d = decide(a)
+            d = truth(x.cond, decide)
             if d is not None:
-                return x.then if (d == p) else x.other
+                return x.then if d else x.other
         return x
 
     return tmap(t, f)
+
+
+def truth(cond, decide):
+    """three-valued truth of a condition under an oracle on canonical atoms (and / or / not propagated)"""
+    a, p = atom(cond)
+    if a.op == "bool":
+        vals = [truth(v, decide) for v in a.vals]
+        if a.opname == "and":
+            r = False if any(v is False for v in vals) else (True if all(v is True for v in vals) else None)
+        else:
+            r = True if any(v is True for v in vals) else (False if all(v is False for v in vals) else None)
+    else:
+        r = decide(a)
+    if r is None:
+        return None
+    return r if p else (not r)
 
 
 def unseq(t):
